@@ -51,4 +51,52 @@ theorem add32_of_lt {a b : Nat} (h : a + b < W) : add32 a b = a + b := by
 theorem mul32_of_lt {a b : Nat} (h : a * b < W) : mul32 a b = a * b := by
   unfold mul32; exact Nat.mod_eq_of_lt h
 
+/-- fan-in and fan-out of a convolution kernel of shape (height, width, in, out), as natural numbers -/
+def convFanIn (s : Shape) : Nat := s.get 0 * s.get 1 * s.get 2
+def convFanOut (s : Shape) : Nat := s.get 0 * s.get 1 * s.get 3
+
+/-- the `std::uint32_t` computation of `fan_in + fan_out` is exact when the sum fits -/
+theorem conv_fans {s : Shape} (hw : convFanIn s + convFanOut s < W) :
+    add32 (mul32 (mul32 (s.get 0) (s.get 1)) (s.get 2)) (mul32 (mul32 (s.get 0) (s.get 1)) (s.get 3))
+      = convFanIn s + convFanOut s := by
+  unfold convFanIn convFanOut at *
+  have m : ∀ a b c : Nat, mul32 (mul32 a b) c = (a * b * c) % W := by
+    intro a b c; unfold mul32; rw [Nat.mul_mod, Nat.mod_mod, ← Nat.mul_mod]
+  rw [m, m, Nat.mod_eq_of_lt (by omega), Nat.mod_eq_of_lt (by omega), add32_of_lt hw]
+
+theorem diag_index {n i j : Nat} (hi : i < n) (hj : j < n) : (i + n * j) % (n + 1) = 0 ↔ i = j := by
+  constructor
+  · intro h0
+    have e1 : (i + n * j + j) % (n + 1) = j := by
+      rw [Nat.add_mod, h0, Nat.zero_add, Nat.mod_mod, Nat.mod_eq_of_lt (by omega)]
+    have e2 : (i + n * j + j) % (n + 1) = i := by
+      have : i + n * j + j = i + j * (n + 1) := by rw [Nat.mul_add, Nat.mul_one, Nat.mul_comm j n]; omega
+      rw [this, Nat.add_mul_mod_self_right, Nat.mod_eq_of_lt (by omega)]
+    omega
+  · rintro rfl
+    have : i + n * i = i * (n + 1) := by rw [Nat.mul_add, Nat.mul_one, Nat.mul_comm i n]; omega
+    rw [this, Nat.mul_mod_left]
+
+theorem diag_index_lt {n i j : Nat} (hi : i < n) (hj : j < n) : i + n * j < n * n := by
+  have : n * (j + 1) ≤ n * n := Nat.mul_le_mul_left n (by omega)
+  rw [Nat.mul_add, Nat.mul_one] at this
+  omega
+
+theorem deviceIdentity_spec {α : Type} (S : Sc α) (n : Nat) (t : Tensor α) (ht : deviceIdentity S n = .ok t) :
+    0 < n ∧ Shape.new [n, n] 1 = .ok t.shape ∧ t.data.length = n * n ∧
+    ∀ i j, i < n → j < n → t.data[i + n * j]? = some (if i = j then S.ofNat 1 else S.ofNat 0) := by
+  unfold deviceIdentity at ht
+  by_cases h0 : (n == 0) = true
+  · simp [h0, Primitiv.throwError] at ht
+  · simp only [h0, if_false, Bool.false_eq_true] at ht
+    have hn : 0 < n := by simp at h0; omega
+    cases hs : Shape.new [n, n] 1 with
+    | error e => simp [hs, bind, Except.bind] at ht
+    | ok sh =>
+      simp only [hs, bind, Except.bind, pure, Except.pure] at ht
+      cases ht
+      refine ⟨hn, rfl, by simp, ?_⟩
+      intro i j hi hj
+      have hlt := diag_index_lt hi hj
+      simp only [List.getElem?_map, List.getElem?_range hlt, Option.map_some, beq_iff_eq, diag_index hi hj]
 end Primitiv.Rng
